@@ -849,9 +849,43 @@ def main(tier: str) -> int:
                 "through the real determine_threshold_entropy (exact integer comparison) and every distinct "
                 "weight vector through determine_threshold_quantile and weighted_quantile (mpmath Harrell-Davis "
                 "oracle); end-to-end calls use the real cut index as n0.  The clause 'in real runs every "
-                "proposal is trained on at least min_samples samples' is NOT covered here: it is checked by "
-                "the INS trace validation (ImportanceSampler.tla, C03 corpus).",
+                "proposal is trained on at least min_samples samples' is checked on real INS runs by trace "
+                "validation against TraceImportanceSampler.tla (threshold is a live likelihood, >= min_remove "
+                "removed, training set >= min_samples).",
     }
+    # ---- the clause about real runs: every proposal is trained on at least min_samples samples, the
+    # threshold is a live sample's likelihood, at least min_remove are removed (TraceImportanceSampler.tla)
+    from .nsruns import ins_spec, run_corpus, validate_ins
+
+    sd = seed * 1000 + 170
+    rspecs = [ins_spec("gauss2", sd + 1, 100, min_samples=20, min_remove=1),
+              ins_spec("rosen2", sd + 2, 100, min_samples=60, min_remove=10, draw_constant=False),
+              ins_spec("gauss2", sd + 3, 50, min_samples=48, min_remove=5, draw_constant=False),
+              ins_spec("gauss4", sd + 4, 100, min_samples=30, max_samples=250, threshold_method="quantile",
+                       threshold_kwargs={"q": 0.7}),
+              ins_spec("gauss2", sd + 5, 100, min_samples=90, min_remove=50, strict_threshold=True)]
+    if tier == "thorough":
+        k = 6
+        for ms, mr, dc in ((10, 1, True), (40, 20, False), (95, 30, False), (50, 50, True), (99, 1, False)):
+            for meth in ("entropy", "quantile"):
+                rspecs.append(ins_spec("gauss2", sd + k, 100, min_samples=ms, min_remove=mr, draw_constant=dc,
+                                       threshold_method=meth))
+                k += 1
+    with Scratch("c17r-") as rscratch:
+        rhs = run_corpus(rspecs, rscratch / "runs")
+        rrecords, rstats, _ = validate_ins(rhs, rscratch)
+        for r in rrecords:
+            if r["k"] == "P" and r["p"] == "C17":
+                h = rhs[r["h"]]
+                v.violation("real_run:" + r["c"], f"INS run {json.dumps(h['spec']['kwargs'])[:200]}: clause "
+                            f"'{r['c']}' fails at event {r['l']}", {"spec": h["spec"], "event": r["ev"]})
+        not_done = [h for h in rhs if h["codes"][-1] != 0]
+        for h in not_done:
+            v.mismatch(f"real INS run did not complete: {h['codes']} {json.dumps(h['spec']['kwargs'])[:160]}")
+    v.coverage["traces_validated_against_impl"] = len(rhs)
+    v.coverage["real_run_iterations"] = rstats["iterations"]
+    v.coverage["states"] += rstats["states"]
+    v.coverage["transitions"] += rstats["transitions"]
     v.assumptions = [
         "live likelihoods are finite and sorted ascending (what OrderedSamples guarantees, C04); with a -inf "
         "likelihood of positive weight the quantile method raises RuntimeError by design",
